@@ -45,7 +45,11 @@ Definition match_obs (with_value : bool) (place : N) (m : obs) (i : iobs) : opti
       | ONormal ov, IVal v =>
           if negb with_value then true
           else if N.eqb place 1 then oval_eqb v OUndef
-          else oval_eqb v (match ov with Some w => w | None => OUndef end)
+          else oval_eqb v (match ov with
+                           | Some w => w
+                           | None => if N.eqb place 0 then OStr 999 (* the "use strict" directive is an expression statement *)
+                                     else OUndef
+                           end)
       | OReturn w, IVal v => N.eqb place 1 && oval_eqb v w
       | OThrow w, IThrow v => oval_eqb w v
       | _, _ => false
